@@ -1,4 +1,6 @@
 import NTV.Proofs.Lemmas.PolyDivZ
+import NTV.Proofs.Lemmas.PolyDivExact
+import NTV.Proofs.Lemmas.ContPP
 /-! # C09 — polynomial arithmetic is exact ring arithmetic on a canonical representation.
 `R` is any commutative ring with decidable equality (the code is used at `BigInt` ↦ `Int` and
 `BigRational` ↦ `Rat`). `toPoly : List R → R[X]` is the abstraction map, `Canon` = no trailing zero. -/
@@ -102,10 +104,33 @@ theorem divRemRat_contract (a b : List Rat) (ha : a ≠ []) (hb : b ≠ []) (hcb
     toPoly a = toPoly (divRemRat a b).1 * toPoly b + toPoly (divRemRat a b).2 ∧
     (divRemRat a b).2.length < b.length ∧ Canon (divRemRat a b).2 := divRemRat_spec a b ha hb hcb hab
 
-/-- exact division, soundness half: a returned quotient is a true quotient.
-(Completeness — `none` only if b ∤ a — is certified per explored case by the oracle; see DESIGN.) -/
-theorem divExact_sound_partial (a b q : List Int) (h : divExact a b = some q) :
+/-- exact division returns the quotient if and only if b divides a in ℤ[x] (a, b non-zero canonical):
+soundness — a returned q satisfies a = q·b; completeness — if a = q'·b for some q' then a quotient is
+returned. The zero cases: b = 0 gives `none`, a = 0 (b ≠ 0) gives `some 0`. -/
+theorem divExact_iff (a b : List Int) (ha : a ≠ []) (hb : b ≠ []) (hca : Canon a) (hcb : Canon b) :
+    (∃ q, divExact a b = some q) ↔ (∃ q' : List Int, toPoly a = toPoly q' * toPoly b) := by
+  constructor
+  · rintro ⟨q, hq⟩; exact ⟨q, (divExact_sound a b q hq).2.1⟩
+  · rintro ⟨q', hq'⟩; exact divExact_complete a b q' ha hb hca hcb hq'
+
+theorem divExact_sound_full (a b q : List Int) (h : divExact a b = some q) :
     b ≠ [] ∧ toPoly a = toPoly q * toPoly b ∧ Canon q := divExact_sound a b q h
+
+theorem divExact_zero_cases (a b : List Int) :
+    divExact a [] = none ∧ (b ≠ [] → divExact [] b = some []) := by
+  refine ⟨by simp [divExact], ?_⟩
+  intro hb
+  have : b.isEmpty = false := by cases b <;> simp_all
+  simp [divExact, this]
+
+/-- content times primitive part reproduces the polynomial; the primitive part has gcd-1 coefficients
+and a positive leading coefficient; the zero polynomial gives (0, 1) -/
+theorem contPP_full (a : List Int) (ha : a ≠ []) (hca : Canon a) :
+    C (contPP a).1 * toPoly (contPP a).2 = toPoly a ∧
+    (∀ d : Int, (∀ c ∈ (contPP a).2, d ∣ c) → d ∣ 1) ∧
+    0 < lc (contPP a).2 ∧ Canon (contPP a).2 := contPP_spec a ha hca
+
+theorem contPP_zero : contPP [] = (0, [1]) := by simp [contPP]
 
 /-- non-vacuity of the hypotheses above -/
 example : ([1, 0, 1] : List Int) ≠ [] ∧ Canon ([3, 2, 1] : List Int) ∧ ([3, 2, 1] : List Int).length ≤ [1, 0, 1, 0, 1].length := by
